@@ -157,7 +157,20 @@ def check_life(pid, tier, seed):
         lg, ld = life.tlc_live(lname, wd)
         mstats["liveness:" + lname] = {"generated": lg, "distinct": ld, "temporal_property": "Answered (held ~> answered) under weak fairness"}
     gen = sum(x["generated"] for x in mstats.values()); dist = sum(x["distinct"] for x in mstats.values())
-    files = run.run_harness(jobs, wd + "/h")
+    try:
+        files = run.run_harness(jobs, wd + "/h")
+    except run.PluginDied as e:
+        # the plugin's code took the whole process down (allocation failure, abort, stack overflow): every HTLC it held
+        # and every later one goes unanswered.  That is a verdict for C06; the other properties cannot be judged.
+        if pid != "C06":
+            raise run.ToolError(f"the plugin's code kills the process in run {e.job.get('run')} ({e.what}); see C06")
+        os.makedirs(REPLAYS, exist_ok=True)
+        pth = f"{REPLAYS}/{pid}_died.json"
+        json.dump({"property": pid, "why": "the process running the plugin died: " + e.what, "kind": "life", "job": e.job, "trace": []}, open(pth, "w"))
+        print(f"VIOLATION property={pid} replay={pth}")
+        write_evidence(pid, tier, seed, "model_checking", {"states": dist, "transitions": gen, "traces_validated_against_impl": len(jobs),
+                       "plugin_process_died_in_run": e.job.get("run"), "exhaustive": False}, time.time() - t0, 1)
+        return 1
     # 3. implementation verdict: Observer on every recorded trace
     viol, nlines = run.observe(files, wd + "/o")
     bad, kn = judge(pid, viol, known)
